@@ -163,7 +163,7 @@ class CFGBuilder(AstVisitor[BB | None]):
         # `xs[i if c else j] = v`) and need to be built. Python evaluates them after
         # the value, except for augmented assignments.
         if isinstance(node, ast.AugAssign):
-            bb = self._build_target_indices([node.target], bb)
+            bb = self._build_target_indices([node.target], bb, spill=True)
         if (
             not isinstance(node, NestedFunctionDef | ModifiedBlock)
             and node.value is not None
@@ -176,12 +176,22 @@ class CFGBuilder(AstVisitor[BB | None]):
         bb.statements.append(node)
         return bb
 
-    def _build_target_indices(self, targets: list[ast.expr], bb: BB) -> BB:
-        """Builds the index expressions of all subscripts in assignment targets."""
+    def _build_target_indices(
+        self, targets: list[ast.expr], bb: BB, spill: bool = False
+    ) -> BB:
+        """Builds the index expressions of all subscripts in assignment targets.
+
+        If `spill` is set, non-trivial index expressions are evaluated into temporary
+        variables. This is needed for augmented assignments where the target is both
+        read and written, but the index must only be evaluated once.
+        """
         for target in targets:
-            for sub in ast.walk(target):
-                if isinstance(sub, ast.Subscript):
-                    sub.slice, bb = ExprBuilder.build(sub.slice, self.cfg, bb)
+            for sub in _subscripts_in_eval_order(target):
+                sub.slice, bb = ExprBuilder.build(sub.slice, self.cfg, bb)
+                if spill and not isinstance(sub.slice, ast.Name | ast.Constant):
+                    tmp = next(tmp_vars)
+                    ExprBuilder._tmp_assign(tmp, sub.slice, bb)
+                    sub.slice = make_var(tmp, sub.slice)
         return bb
 
     def visit_Assign(self, node: ast.Assign, bb: BB, jumps: Jumps) -> BB | None:
@@ -728,6 +738,15 @@ def is_short_circuit_expr(node: ast.AST) -> bool:
 def is_illegal_in_list_comp(node: ast.AST) -> bool:
     """Checks if an expression is illegal to use in a list comprehension."""
     return isinstance(node, ast.IfExp | ast.NamedExpr) or is_short_circuit_expr(node)
+
+
+def _subscripts_in_eval_order(node: ast.AST) -> Iterator[ast.Subscript]:
+    """Yields all subscript nodes in the order Python evaluates their indices."""
+    for child in ast.iter_child_nodes(node):
+        if not isinstance(node, ast.Subscript) or child is not node.slice:
+            yield from _subscripts_in_eval_order(child)
+    if isinstance(node, ast.Subscript):
+        yield node
 
 
 def make_var(name: str, loc: ast.AST | None = None) -> ast.Name:
